@@ -18,6 +18,7 @@ import (
 	"math"
 	"strings"
 
+	"github.com/sboehler/knut/lib/common/compare"
 	"github.com/sboehler/knut/lib/common/dict"
 	"github.com/sboehler/knut/lib/common/set"
 	"github.com/sboehler/knut/lib/syntax"
@@ -121,7 +122,9 @@ func (m *Model) inferAccount(t *syntax.Transaction, b *syntax.Booking, other str
 func (m *Model) scoreCandidate(candidate string, tokens set.Set[token]) float64 {
 	count := float64(m.countByAccount[candidate])
 	score := math.Log(count / float64(m.count))
-	for token := range tokens {
+	// the terms are added in a fixed order: float64 addition is not associative, and equal scores must
+	// come out equal for the tie-break by name to apply
+	for _, token := range tokens.Sorted(compare.Ordered[token]) {
 		if countForToken, ok := m.countByTokenAndAccount[token][candidate]; ok {
 			score += math.Log(float64(countForToken) / count)
 		} else {
